@@ -107,6 +107,33 @@ def realtty_round(binp, d, speed, nlines, rng):
     return res
 
 
+def mute_stream(run):
+    """'apart from output the operator deliberately mutes with Ctrl+O': what arrives after a mute has ended is shown again - also when the mute was the first
+    of the session and nothing arrived during it; through the real Shell in virtual time (C19's harness and judge)."""
+    import c19
+    ok, mbin, mlog = vlib.build_overlay_test(run.rundir, "lib/opshell")
+    if not ok:
+        run.oblige("opshell harness builds against /repo", False, mlog)
+        return
+    scheds = []
+    for first_gap in (2001, 2500, 10000):
+        scheds.append([{"t": 0, "ev": "o"}, {"t": first_gap, "ev": "p"}, {"t": first_gap + 10, "ev": "p"}])                      # first Ctrl+O of the session, silence, then output
+        scheds.append([{"t": 0, "ev": "p"}, {"t": 5, "ev": "o"}, {"t": 5 + first_gap, "ev": "p"}, {"t": 6 + first_gap, "ev": "p"}])  # output, Ctrl+O, silence, output
+        scheds.append([{"t": 0, "ev": "o"}, {"t": 100, "ev": "p"}, {"t": 100 + first_gap, "ev": "p"}, {"t": 200 + first_gap, "ev": "o"},
+                       {"t": 200 + 2 * first_gap, "ev": "p"}])                                                                      # two mute cycles
+    mc = [{"i": k, "events": c19.with_tail(e)} for k, e in enumerate(scheds)]
+    rc, out, mres = c19.run_cases(run, mbin, mc, "mutedoutput")
+    if rc != 0 or len(mres) != len(mc) or any(r.get("fail") for r in mres):
+        run.oblige("mute schedules: harness ran under a pty", False, "rc=%s %s" % (rc, out[-800:].decode(errors="replace")))
+        return
+    vlib.judge_stream(run, "mutedoutput", c19.IMPORTS, "case", mc, mres, c19.term,
+                      {1: "shell output which arrived after a mute (Ctrl+O) had ended by itself - two seconds without output - was not shown, or output was "
+                          "dropped while nothing was muted", 10: "mute model and implementation differ"}, (),
+                      "Ctrl+O as the first thing of a session with no output during the two seconds, after earlier output, and twice in a session; output "
+                      "arriving 2001 / 2500 / 10000 ms later must be written to the terminal by the real Shell (virtual time, pty child)",
+                      key_fn=lambda c: json.dumps(c["events"]))
+
+
 def realtty_stream(run):
     binp = os.path.join(run.rundir, "curlrevshell")
     rc, o, e = vlib.sh(["go", "build", "-o", binp, "."], cwd=vlib.REPO, env=vlib.GOENV, timeout=600)
@@ -267,6 +294,7 @@ def check(run):
     hs = [B.gen_history(run.rng, run.rng.choice([10, 20, 40])) for _ in range(200 if run.tier == "quick" else 4000)]
     B.run_stream(run, binp, "histories", 3, hs, CLAUSES, "random histories (see C01)")
     terminal_stream(run)
+    mute_stream(run)
     realtty_stream(run)
     run.assumptions += ["x/term's Terminal.Write passes bytes through while no line is being edited (the harness does not run ReadLine); the pty's own "
                         "output processing (ONLCR) is outside the program",
